@@ -44,6 +44,12 @@ class Report:
         self.level = "model_checking"
         self.rule = ""
         self.known = [k for k in load_known() if k.get("property") == prop]
+        import glob
+        for f in glob.glob(os.path.join(EVID, "replay", "%s-*.json" % prop)):
+            try:
+                os.unlink(f)
+            except OSError:
+                pass
 
     # -- accounting -------------------------------------------------------
     def add_tlc(self, res, name=None):
